@@ -3,30 +3,36 @@
 Units
   decode/*  : NLRI bytes fully symbolic through the real Flow.unpack_nlri (IPv4 flow, IPv6 flow, flow-vpn) against
               oracle.flowspec.flow_decode (RFC 8955/8956 reference decoder): well-formed => same components,
-              operator bits, values, left-over; undefined component / truncated value / missing end-of-list /
-              bad length => INVALID or Notify; a canonical rule re-encoded from the decoded objects gives the bytes.
-              decode/big/* : concrete sizes around 240 / 256 / 4095 octets with symbolic values.
+              operator bits, values, prefix bits, RD, left-over; undefined component / truncated value / missing
+              end-of-list / truncated RD / bad length => INVALID or Notify, never a rule; a canonical rule re-encoded from
+              the decoded objects (Flow.make_flow + add + pack_nlri) gives the same octets.
+              decode/*/port-L7, label-L7, port-w8: one operator component, every operator octet, widths 1/2/4/8.
+              decode/big/lengths : concrete sizes around 240 / 256 / 4095 octets with symbolic values.
   encode/*  : rules built with the real factories (Flow.make_flow, flow.add, FlowXxx(operator, value),
-              FlowN{Source,Destination}.make_prefixN) in UNSORTED order, operator bits and values symbolic over the
-              component's range; real pack_nlri vs oracle.flow_encode, and decoded back by oracle.flow_decode.
+              FlowN{Source,Destination}.make_prefixN, RouteDistinguisher) in UNSORTED order, operator bits and values
+              symbolic over the component's range; real pack_nlri vs oracle.flow_encode octet for octet, and read back by
+              oracle.flow_decode: ascending order, end-of-list on the last operator only, AND bits and operator bits as
+              written, shortest width, values, RD first.  encode/*/subset-*: presence of each type symbolic.
               encode/len/* : encoded size straddles 239/240/241 and 4094/4095/4096.
-  text/*    : the real configuration parser (_generic_condition, source/destination) on operator texts picked from
-              every spelling x boundary values, packed and compared with the oracle encoding of the written meaning.
-  actions/* : discard / rate-limit / redirect / mark / action extended communities vs RFC 8955 section 7 layout.
+  text/*    : the real text entry point (configuration.flow.route: tokeniser -> _generic_condition / source /
+              destination -> Flow.add) on operator texts: every operator spelling x boundary values x '&' / list,
+              bracketed and bare, followed by a prefix; packed and compared with the oracle encoding of the written meaning.
+  actions/* : discard / rate-limit / redirect / mark / action: text -> extended community octets, and the factories of
+              extended/traffic.py with symbolic fields vs the RFC 8955 section 7 layout.
 """
 from __future__ import annotations
 
 import struct as _struct
 
 from sx.run import Unit
-from sx.core import sx_eq, SBytes, SDict, s_and, s_or, s_not, s_implies
+from sx.core import sx_eq, SBytes, SDict, s_and, s_implies
 from oracle import flowspec as O
 
 import exabgp.bgp.message.update.nlri.flow as fl
 from exabgp.bgp.message.update.nlri.flow import (
     Flow, Flow4Destination, Flow4Source, Flow6Destination, Flow6Source, FlowIPProtocol, FlowNextHeader, FlowAnyPort,
     FlowDestinationPort, FlowSourcePort, FlowICMPType, FlowICMPCode, FlowTCPFlag, FlowPacketLength, FlowDSCP,
-    FlowTrafficClass, FlowFragment, FlowFlowLabel, NumericOperator, BinaryOperator)
+    FlowTrafficClass, FlowFragment, FlowFlowLabel, NumericOperator)
 from exabgp.bgp.message.update.nlri.nlri import NLRI
 from exabgp.bgp.message.update.nlri.qualifier import RouteDistinguisher
 from exabgp.bgp.message.action import Action
@@ -43,34 +49,41 @@ from exabgp.bgp.message.update.attribute.community.extended import traffic as tr
 
 ID = 'C16'
 LEVEL = 'model_checking'
-TECHNIQUE = ('symbolic execution of the real Flow.unpack_nlri/_parse_rules/_parse_operations and of '
-             'Flow.add/_pack_from_rules/IOperation.pack/_encode_length (z3 over all NLRI bytes, operator bits and values) '
-             'vs an RFC 8955/8956 reference codec; traffic-action communities vs RFC 8955 section 7 layout')
+TECHNIQUE = ('symbolic execution of the real Flow.unpack_nlri/_parse_rules/_parse_operations/IPrefix.make and of '
+             'Flow.add/_pack_from_rules/IOperation.pack/encode/_encode_length (z3 over all NLRI octets, operator bits, values, '
+             'prefix bits) against an RFC 8955/8956 reference codec; the flow route text parser on enumerated operator texts; '
+             'traffic-action communities with symbolic fields against the RFC 8955 section 7 layout')
 ASSUMPTIONS = [
     'the per-family component tables flow.decode[afi] / flow.factory[afi] are wrapped as SDict (same content; a symbolic type forks per defined type + miss)',
     'negotiated=None is passed to unpack_nlri/pack_nlri (the Flow code does not read it)',
     'flow-label (type 13): RFC 8956 says values SHOULD use 4 octets; the shorter encodings are taken as allowed ("shortest allowed width")',
-    'the operator text of text/* is fed through a three-method token source (call / peek / afi) instead of the configuration Tokeniser',
+    'fragment / protocol / icmp / dscp / traffic-class values are taken over the one octet the RFC gives them (0..255, dscp 0..63), ports, tcp-flags, packet-length over 0..65535, flow-label over 20 bits',
+    'the first term of a condition has no AND bit (the text syntax cannot put & in front of the first term)',
+    'encode/*: prefixes are written with zero bits beyond their length (IPv4: RFC 4271 makes them irrelevant; IPv6: encode/v6/padding drops the assumption)',
+    'decode/*/exact-L*, port-L7, label-L7, port-w8, vpn*/rd-L*: the length octet / first type / first width is constrained as the unit name says (other values: the free-L*, short and big units)',
     'rate-limit float: the 4 IEEE-754 octets of concrete rates are taken from struct.pack("!f") (opaque to the solver)',
     'logging of configuration.flow.parser (log.warning / lazymsg) has an empty body',
 ]
 BOUNDS = {
-    'quick': {'decode': 'IPv4 and IPv6 flow: every NLRI of <=5 octets (length octet included) + 6 octets with exact length; flow-vpn: RD + <=4 octets; '
-                        'big: 236..261 and 4094..4096 octets with symbolic values',
-              'encode': '<=4 components per rule out of all 13 types (both families), 1-3 operations each, operator bits and values symbolic over the full component range; '
-                        'presence of 6 types at a time symbolic; sizes 239/240/241 and 4094/4095/4096',
-              'text': '2 operations per condition, 8 operator spellings x 5 boundary values x and/or',
-              'actions': 'AS, target, DSCP, flags symbolic over their full field; 4 concrete rates'},
-    'thorough': {'decode': 'every NLRI of <=6 octets free, 8 octets with exact length; flow-vpn RD + <=6',
-                 'encode': 'presence of all 12/13 types symbolic at once (every subset), 1-3 operations',
-                 'text': '3 operations', 'actions': 'same'},
+    'quick': {'decode': 'IPv4 and IPv6 flow: every NLRI buffer of <=5 octets (length octet included, any length octet, left-over allowed) + every 6 octet NLRI with exact length '
+                        '+ every 7 octet NLRI whose first component is destination-port / flow-label; flow-vpn: every buffer of 5 octets, RD + <=4 octets; '
+                        'big: 238..258 and 4093/4095 octets, 3 symbolic values each',
+              'encode': 'rules of <=4 components covering all 13 types of both families, 1-3 operations each, operator bits and values symbolic over the full component range, '
+                        'IPv4 prefix length and address symbolic, IPv6 length/offset from 7 pairs with symbolic address; presence of 6-7 types at a time symbolic (every subset); '
+                        'RD symbolic; sizes 239/240/241 and 4094/4095/4096',
+              'text': '2 terms per condition: 7 numeric / 4 bitmask operator spellings x boundary values x and/or x bracket/bare x 4 prefixes, all components',
+              'actions': '14 texts; AS, target, DSCP, flags symbolic over their full field; 4 concrete rates'},
+    'thorough': {'decode': 'every buffer of <=6 octets, every exact-length NLRI of 7 and 8 octets; flow-vpn RD + <=5; 12 big sizes',
+                 'encode': 'as quick + presence of all 12 (IPv4) / 13 (IPv6) types symbolic at once (every subset, one-octet values)',
+                 'text': '3 terms per condition', 'actions': 'same'},
 }
 OUTSIDE = [
     'NLRI longer than the stated octet bound are covered only through the concrete-size units (values symbolic, structure fixed)',
     'decode: a wire NLRI whose components are out of order or repeated, or an IPv6 prefix with offset >= length, is malformed per RFC 8955 4.2 / RFC 8956 3.1 '
-    'but is outside the negative clause of the property (undefined component / truncated value): its handling is recorded in the census, not obliged',
-    'several destination or source prefixes in one rule (accepted by Flow.add for vendor compatibility)',
-    'the text of a rule (str()/json()) is compared only through the operator fields the objects hold, not character by character',
+    'but is outside the negative clause of the property (undefined component / truncated value): ExaBGP accepts them; recorded in the outcome census, not obliged',
+    'several destination or source prefixes in one rule (accepted by Flow.add for vendor compatibility), a rule mixing IPv4 and IPv6 prefixes',
+    'configuration values outside the field of the component (traffic-class 256..65535 is accepted by the parser and fails in pack with ValueError; fragment / protocol numbers above 255)',
+    'the text of a decoded rule (str()/json()) is compared only through the operator fields the objects hold, not character by character',
     'redirect to IPv6 / next-hop (draft) communities, interface-set: not in RFC 8955 section 7',
     'IEEE-754 conversion of the rate (delegated to struct)',
 ]
@@ -86,8 +99,6 @@ for _afi in list(fl.decode):
 class _Log:
     def __getattr__(self, name):
         return lambda *a, **k: None
-
-
 
 
 def flow_route_parser():
@@ -210,14 +221,11 @@ def decode_obligations(ctx, afi, vpn, data, extra_tags=()):
         t = w[1]
         if w[0] == 'prefix4':
             ctx.cover('prefix')
-            ctx.check('prefix', s_and(sx_eq(h[2], w[2]), sx_eq(B(ctx, h[3]), w[3])), sig='C16:decode:%s:prefix4' % fam)
+            ctx.check('prefix', s_and(sx_eq(h[2], w[2]), prefix_same(B(ctx, h[3]), w[2], 0, w[3])), sig='C16:decode:%s:prefix4' % fam)
         elif w[0] == 'prefix6':
             ctx.cover('prefix')
-            if 'ipv6-offset' in tags:
-                ctx.check('prefix6-offset', s_and(sx_eq(h[2], w[2]), sx_eq(h[3], w[3]), prefix6_same(ctx, h, w)),
-                          sig='C16:decode:%s:prefix6%s' % (fam, tag))
-            else:
-                ctx.check('prefix', s_and(sx_eq(h[2], w[2]), sx_eq(h[3], w[3]), sx_eq(B(ctx, h[4]), w[4])), sig='C16:decode:%s:prefix6' % fam)
+            ctx.check('prefix', s_and(sx_eq(h[2], w[2]), sx_eq(h[3], w[3]), prefix_same(B(ctx, h[4]), w[2], w[3], w[4])),
+                      sig='C16:decode:%s:prefix6%s' % (fam, tag))
         else:
             for (opn, val), (a, low, width, value, first) in zip(h[2], w[2]):
                 ctx.cover('width-%d' % width)
@@ -251,23 +259,26 @@ def decode_obligations(ctx, afi, vpn, data, extra_tags=()):
     return ('rule', str(shape(comps)), L - end)
 
 
-def prefix6_same(ctx, h, w):
-    """RFC 8956 3.1: the pattern on the wire holds address bits offset..length-1 moved to the front.  ExaBGP stores
-    ceil(length/8) address octets: its bits offset..length-1 must be the pattern (length, offset decided here)."""
-    length = ctx.concretize(w[2])
-    offset = ctx.concretize(w[3])
-    nbits = length - offset
-    pat, addr = w[4], B(ctx, h[4])
-    na, np_ = (length + 7) // 8, (nbits + 7) // 8
-    if len(addr) != na:
-        return False
-    pint = 0
-    for i in range(np_):
-        pint = pint * 256 + pat[i]
-    aint = 0
-    for i in range(na):
-        aint = aint * 256 + addr[i]
-    return sx_eq((aint // 2 ** (8 * na - length)) % 2 ** nbits, pint // 2 ** (8 * np_ - nbits))
+def prefix_same(addr, length, offset, pat):
+    """The prefix ExaBGP holds (`addr`: the first ceil(length/8) address octets) means what the wire pattern says
+    (RFC 8955 4.2.2.1 / RFC 8956 3.1: `pat` holds address bits offset..length-1 moved to the front, padding ignored):
+    bits offset..length-1 of addr == the first length-offset bits of pat.  No fork: length and offset stay symbolic,
+    the two sub-octet shifts are case-split inside the formula."""
+    na, np_ = len(addr), len(pat)
+    A = 0
+    for x in addr:
+        A = A * 256 + x
+    P = 0
+    for x in pat:
+        P = P * 256 + x
+    sa = 8 * na - length               # unused low bits of the last address octet
+    sp = 8 * np_ - (length - offset)   # padding bits of the last pattern octet
+    terms = [sa >= 0, sa <= 7, sp >= 0, sp <= 7]
+    for i in range(8):
+        for k in range(8):
+            if 8 * np_ - k >= 0:
+                terms.append(s_implies(s_and(sa == i, sp == k), sx_eq((A // 2 ** i) % 2 ** (8 * np_ - k), P // 2 ** k)))
+    return s_and(*terms)
 
 
 # ----------------------------------------------------------------------------- decode: concrete sizes, symbolic values
@@ -340,6 +351,9 @@ def build_component(ctx, flow, afi, idx, item, intended, tags, zero_padding=True
             addr = ctx.bytes('a%d' % idx, 4)
             lo, hi = item[1] if len(item) > 1 else (0, 32)
             mask = ctx.int('m%d' % idx, lo, hi)
+            # RFC 4271 4.3: trailing bits are irrelevant, an encoder may copy or clear them: the operator writes none
+            ctx.assume(s_and(*[s_implies(mask == 8 * j + k, addr[j] % 2 ** (8 - k) == 0) for j in range(4) for k in range(1, 8)]),
+                       'encode/v4: the IPv4 prefix is written with zero bits beyond its length (RFC 4271: their value is irrelevant)')
             flow.add(klass.make_prefix4(addr, mask))
             intended.append(('prefix4', t, mask, addr))
         else:
@@ -674,10 +688,6 @@ ALL_V4 = (('fragment', 1), ('source', (17, 24)), ('dscp', 1), ('packet-length', 
           ('source-port', 1, 255), ('destination-port', 1, 255), ('port', 1, 255), ('protocol', 1))
 ALL_V6 = (('flow-label', 1, 255), ('fragment', 1), ('source', ((32, 0),)), ('traffic-class', 1), ('packet-length', 1, 255), ('destination', ((61, 0),)), ('tcp-flags', 1, 255),
           ('icmp-code', 1), ('icmp-type', 1), ('source-port', 1, 255), ('destination-port', 1, 255), ('port', 1, 255), ('next-header', 1))
-
-
-def one_byte(spec):
-    return spec
 
 
 def units(tier):
